@@ -57,13 +57,17 @@ func ChainConfig(fork string) *params.ChainConfig {
 		EIP158Block:         at(3),
 		ByzantiumBlock:      at(4),
 		ConstantinopleBlock: at(5),
-		PetersburgBlock:     at(6),
+		PetersburgBlock:     at(6), // nil would mean "together with Constantinople" (see below)
 		IstanbulBlock:       at(7),
 		MuirGlacierBlock:    at(7),
 		BerlinBlock:         at(8),
 		LondonBlock:         at(9),
 		ShanghaiTime:        t(11),
 		CancunTime:          t(12),
+	}
+	if n == 5 {
+		// Constantinople proper: EIP-1283 net gas metering is in force only while Petersburg is scheduled later
+		c.PetersburgBlock = big.NewInt(1_000_000)
 	}
 	return c
 }
